@@ -1,8 +1,17 @@
 import Heph.Model.Subst
 import Heph.Proofs.Heap
 import Heph.Generated.Writes
+import Heph.Proofs.SubstWitness
+import Heph.Proofs.SubstClosure
 /-!
 # C07 — instantiation substitutes everywhere and mutates nothing
+
+Substitution half (second part of this file): the code's `_get_type_substitution` /
+`perform_type_substitution` / `TypeConstructor.new` (model `Heph/Model/Subst.lean`) against
+substitution on syntax (`Heph/Spec/Subst.lean`), for all types (structural induction, no bound
+on size).  Hypotheses that the code really needs are named and shown necessary by
+counterexamples: `tvarsWithin` / `closedCon` (every type variable reachable by the substitution
+is bound; declared supertypes only mention the class's own parameters), `wf` and `Consistent`.
 
 Mutation half (this file, first part): in a by-value functional model "mutates nothing" is true
 by construction, so it is stated over a heap semantics and the *regenerated* table of the
@@ -51,5 +60,357 @@ example : FreshWrites 1 [Stmt.alloc [("supertypes", 0)], Stmt.write 1 "supertype
   intro s hs
   simp at hs
   rcases hs with rfl | rfl <;> simp
+
+/-! ## Substitution half -/
+
+open Heph.Ty Heph.C07W
+
+/-! ### 1. the code's substitution is substitution on syntax -/
+
+/-- full statement: whenever all replacements are type-variable free, the code's substitution
+    (with either `cond`) is the syntactic one.  **False** of the code, see
+    `getSubst_eq_substS_counterexample`: an *argument* of an instantiation node that keeps a type
+    variable (one the map does not bind) makes `perform_type_substitution` skip that variable
+    in the declared supertypes, because the inner call uses the default `cond`. -/
+def getSubst_eq_substS : Prop :=
+  ∀ (t : Ty) (σ : TMap) (dflt : Bool), (∀ p ∈ σ, hasTV p.2 = false) →
+    getSubst t σ dflt = substS σ t
+
+/-- proved part: … when moreover the map binds every type variable the substitution can reach
+    (`tvarsWithin ps t`, `σ.covers ps`: arguments, wildcard bounds, and — relative to each
+    class's own parameters — the declared supertypes of every class involved).  Holds for both
+    values of the `cond` flag. -/
+theorem getSubst_eq_substS_partial (t : Ty) (σ : TMap) (dflt : Bool) (ps : List Ty)
+    (hσ : ∀ p ∈ σ, hasTV p.2 = false) (hc : σ.covers ps) (ht : tvarsWithin ps t = true) :
+    getSubst t σ dflt = substS σ t :=
+  getSubst_eq t σ ps dflt hσ hc ht
+
+/-- in particular `substitute_type(t, σ)` is the syntactic substitution -/
+theorem substituteType_eq_substS (t : Ty) (σ : TMap) (ps : List Ty)
+    (hσ : ∀ p ∈ σ, hasTV p.2 = false) (hc : σ.covers ps) (ht : tvarsWithin ps t = true) :
+    substituteType t σ = substS σ t :=
+  getSubst_eq t σ ps false hσ hc ht
+
+/-- the same for argument lists (`substitute_type_args`) -/
+theorem getSubstL_eq_substSL (l : List Ty) (σ : TMap) (dflt : Bool) (ps : List Ty)
+    (hσ : ∀ p ∈ σ, hasTV p.2 = false) (hc : σ.covers ps) (hl : tvarsWithinL ps l = true) :
+    getSubstL l σ dflt = substSL σ l :=
+  getSubstL_eq l σ ps dflt hσ hc hl
+
+/-- the same for `perform_type_substitution` on a closed class declaration -/
+theorem performSubst_eq_instConS (con : Ty) (m : TMap)
+    (hm : ∀ p ∈ m, hasTV p.2 = false) (hc : m.covers (conParams con))
+    (hcl : closedCon con = true) : performSubst con m = instConS con m := by
+  cases con with
+  | tcon cls nm ps ss =>
+    simp only [performSubst, instConS]
+    rw [performSubstL_eq ss m ps hm hc hcl]
+  | _ => simp [performSubst, instConS]
+
+/-- key sub-lemma: the map `{param: arg}` built by the code has type-variable-free values when
+    the arguments are type-variable free, so a value returned by `type_map.get` is -/
+theorem mk_get_tvfree (ks vs : List Ty) (h : hasTVL vs = false) (k r : Ty)
+    (hg : (TMap.mk ks vs).get k = some r) : hasTV r = false :=
+  TMap.get_pres (hasTV · = false) (TMap.mk_pres (hasTV · = false) ks vs (hasTVL_false_mem h)) hg
+
+/-- … and it binds every variable `==` to a parameter (when there are enough arguments) -/
+theorem mk_covers (ks vs : List Ty) (h : ks.length ≤ vs.length) : (TMap.mk ks vs).covers ks :=
+  TMap.mk_covers ks vs h
+
+/-- witness: `substitute_type(Foo<Y>, {})` for `class Foo<X> : Base<Lst<X>>`, `Y` a type variable
+    that the (empty) map does not bind: the code answers a `Foo<Y>` whose supertype is
+    `Base<Lst<X>>` (the inner map `{X: Y}` is skipped, `Y` has type variables); substitution on
+    syntax says `Base<Lst<Y>>` -/
+theorem getSubst_eq_substS_counterexample : ¬ getSubst_eq_substS := by
+  intro h
+  have := h (tconNew fooC [tY]) [] false (by simp)
+  revert this
+  decide
+
+/-- non-vacuity of the hypotheses: `Foo<X>` under `{X ↦ String}` -/
+example : (∀ p ∈ TMap.mk [tX] [strT], hasTV p.2 = false) ∧ (TMap.mk [tX] [strT]).covers [tX] ∧
+    tvarsWithin [tX] (tconNew fooC [tX]) = true ∧
+    getSubst (tconNew fooC [tX]) (TMap.mk [tX] [strT]) true ≠ tconNew fooC [tX] :=
+  ⟨by decide, TMap.mk_covers _ _ (by decide), by decide, by decide⟩
+
+/-! ### 2. supertypes of an instance -/
+
+/-- full statement: the supertypes of `con.new(args)` for type-variable-free `args` are the
+    declared supertypes under the syntactic substitution `{parameter ↦ argument}`.  **False** for
+    class declarations whose supertypes mention a type variable that is not a parameter of the
+    class (`new_supertypes_counterexample`). -/
+def new_supertypes : Prop :=
+  ∀ (con : Ty) (args : List Ty), hasTVL args = false →
+    (tconNew con args).sups = conSups (instConS con (TMap.mk (conParams con) args))
+
+/-- proved part: for a *closed* class declaration (`closedCon`: its declared supertypes, and
+    those of the classes they instantiate, only mention the declaring class's own parameters)
+    and at least as many arguments as parameters (Python asserts equality) -/
+theorem new_supertypes_partial (con : Ty) (args : List Ty) (h : hasTVL args = false)
+    (hcl : closedCon con = true) (hlen : (conParams con).length ≤ args.length) :
+    (tconNew con args).sups = conSups (instConS con (TMap.mk (conParams con) args)) := by
+  rw [conSups_instConS]
+  exact tconNew_sups_eq con args h hcl hlen
+
+/-- the same, element by element: each declared parameterized supertype is replaced by its
+    substitution instance, every other declared supertype is kept -/
+theorem new_supertypes_map (con : Ty) (args : List Ty) (h : hasTVL args = false)
+    (hcl : closedCon con = true) (hlen : (conParams con).length ≤ args.length) :
+    (tconNew con args).sups =
+      (conSups con).map
+        (fun d => if d.isParam then substS (TMap.mk (conParams con) args) d else d) := by
+  rw [tconNew_sups_eq con args h hcl hlen, instSupsS_eq_map]
+
+/-- witness: `class Root<T>`, `class Base<T> : Root<T>`, `class Bad<X> : Base<Y>` (`Y` is not a
+    parameter of `Bad`): `Bad.new([String]).supertypes[0]` is a `Base<Y>` whose own supertype is
+    `Root<T>` (the map `{T: Y}` is skipped); substitution on syntax says `Root<Y>` -/
+theorem new_supertypes_counterexample : ¬ new_supertypes := by
+  intro h
+  have := h badC [strT] (by decide)
+  revert this
+  decide
+
+/-- transitively up the hierarchy: every parameterized supertype `s` of the instance is the
+    substitution instance of a declared supertype `c<as>`; its arguments are the substituted
+    arguments `as'`, again type-variable free; its class `c` is again closed; and the supertypes
+    stored in `s` are those of the instance `c.new(as')`, i.e. `c`'s declared supertypes under
+    `{parameters of c ↦ as'}` — so the statement applies again to `s`, at every depth -/
+theorem new_supertypes_transitive (con : Ty) (args : List Ty) (h : hasTVL args = false)
+    (hcl : closedCon con = true) (hlen : (conParams con).length ≤ args.length) :
+    ∀ s ∈ (tconNew con args).sups, s.isParam = true →
+      ∃ nm c as ss, param nm c as ss ∈ conSups con ∧
+        s = substS (TMap.mk (conParams con) args) (param nm c as ss) ∧
+        argsOf s = substSL (TMap.mk (conParams con) args) as ∧
+        hasTVL (argsOf s) = false ∧ closedCon c = true ∧
+        (conParams c).length ≤ (argsOf s).length ∧
+        s.sups = (tconNew c (argsOf s)).sups ∧
+        s.sups = conSups (instConS c (TMap.mk (conParams c) (argsOf s))) := by
+  intro s hs hp
+  rw [tconNew_sups_eq con args h hcl hlen] at hs
+  obtain ⟨nm, c, as, ss, hd, rfl⟩ := mem_instSupsS_param hs hp
+  have hm := TMap.mk_pres (hasTV · = false) (conParams con) args (hasTVL_false_mem h)
+  have hcov := TMap.mk_covers (conParams con) args hlen
+  have hw := supsWithin_mem (closedCon_supsWithin con hcl) hd
+  have hw' := hw
+  simp only [tvarsWithin, Bool.and_eq_true, decide_eq_true_eq] at hw'
+  obtain ⟨⟨ha, hc⟩, hl⟩ := hw'
+  have htv := hasTVL_substSL _ hm _ hcov as ha
+  have hl' : (conParams c).length ≤ (substSL (TMap.mk (conParams con) args) as).length := by
+    rw [length_substSL]; exact hl
+  refine ⟨nm, c, as, ss, hd, rfl, ?_, ?_, hc, ?_, ?_, ?_⟩
+  · simp only [substS, argsOf]
+  · simpa only [substS, argsOf] using htv
+  · simpa only [substS, argsOf] using hl'
+  · simp only [substS, argsOf]
+    rw [new_supertypes_partial c _ htv hc hl']
+    rfl
+  · simp only [substS, argsOf, sups]
+
+/-- at every depth: every instance `c'<as'>` that the class declarations put above `con<args>`
+    (`SuperInst`, the reflexive-transitive closure of "declares the supertype … under the
+    instance's own map") is present in `get_supertypes()` of `con.new(args)` as a node of class
+    `c'` with exactly the arguments `as'` (type-variable free) and, as its stored supertypes,
+    `c'`'s declared supertypes under `{parameters of c' ↦ as'}` -/
+theorem new_supertypes_closure (con : Ty) (args : List Ty) (h : hasTVL args = false)
+    (hcl : closedCon con = true) (hlen : (conParams con).length ≤ args.length)
+    (c' : Ty) (as' : List Ty) (hsi : SuperInst con args c' as') :
+    hasTVL as' = false ∧ closedCon c' = true ∧ (conParams c').length ≤ as'.length ∧
+    ∃ u ∈ closure (tconNew con args), u.isParam = true ∧ stripCon (conOf u) = stripCon c' ∧
+      argsOf u = as' ∧ u.sups = conSups (instConS c' (TMap.mk (conParams c') as')) :=
+  superInst_mem_closure con args h hcl hlen hsi
+
+/-- `Root<Lst<String>>` lies above `Foo<String>` (two declaration steps) -/
+example : SuperInst fooC [strT] rootC [tconNew lstC [strT]] := by
+  have h1 : SuperInst fooC [strT] baseC [tconNew lstC [strT]] :=
+    SuperInst.step (c' := fooC) (as' := [strT]) (nm := "Base") (c'' := baseC)
+      (bs := [tconNew lstC [tX]]) (ss := (tconNew baseC [tconNew lstC [tX]]).sups)
+      SuperInst.refl (by decide)
+  exact SuperInst.step (c' := baseC) (as' := [tconNew lstC [strT]]) (nm := "Root") (c'' := rootC)
+      (bs := [tT]) (ss := []) h1 (by decide)
+
+/-- `Foo<String>`: its supertype is `Base<Lst<String>>`, whose supertype is `Root<Lst<String>>` -/
+example : closedCon fooC = true ∧ hasTVL [strT] = false ∧
+    (tconNew fooC [strT]).sups =
+      [param "Base" (instConS baseC (TMap.mk [tT] [tconNew lstC [strT]])) [tconNew lstC [strT]]
+        [param "Root" rootC [tconNew lstC [strT]] []]] := by decide
+
+/-- bounded parameter as a key, wildcard bound: `Box<String, Lst<String>>` has supertypes
+    `Base<Lst<String>>` and `Root<Base<out String>>` -/
+example : closedCon boxC = true ∧
+    ((tconNew boxC [strT, tconNew lstC [strT]]).sups.map getName) =
+      ["Base<Lst<String>>", "Root<Base<*>>"] ∧
+    ((tconNew boxC [strT, tconNew lstC [strT]]).sups.map argsOf) =
+      [[tconNew lstC [strT]],
+       [param "Base" (instConS baseC (TMap.mk [tT] [wild 1 (some strT)])) [wild 1 (some strT)]
+          [param "Root" rootC [wild 1 (some strT)] []]]] := by decide
+
+/-- why `hasTVL args = false` is needed: with an argument that contains a type variable the code
+    skips the declared supertypes (`Foo<Y>` keeps the supertype `Base<Lst<X>>`), so the code's
+    substitution with the default `cond` differs from the syntactic one -/
+example : closedCon fooC = true ∧
+    (tconNew fooC [tY]).sups ≠ conSups (instConS fooC (TMap.mk (conParams fooC) [tY])) ∧
+    (tconNew fooC [tY]).sups = conSups fooC ∧
+    getSubst (tconNew fooC [tX]) (TMap.mk [tX] [tY]) true ≠
+      substS (TMap.mk [tX] [tY]) (tconNew fooC [tX]) := by decide
+
+/-! ### 3. the definition is kept -/
+
+/-- the constructor recorded in the instance is the definition itself: same parameters and the
+    definition's own (unsubstituted) supertypes -/
+theorem new_keeps_definition (con : Ty) (args : List Ty) :
+    conOf (tconNew con args) = con ∧
+    conSups (conOf (tconNew con args)) = conSups con ∧
+    conParams (conOf (tconNew con args)) = conParams con := by
+  rw [tconNew_eq]; simp only [conOf, and_self]
+
+/-- the instance's arguments are the given ones -/
+theorem new_args (con : Ty) (args : List Ty) : argsOf (tconNew con args) = args := by
+  rw [tconNew_eq]; simp only [argsOf]
+
+example : conOf (tconNew fooC [strT]) = fooC ∧ (tconNew fooC [strT]).sups ≠ conSups fooC := by
+  decide
+
+/-! ### 4. the empty map -/
+
+/-- full statement of reflexivity of `==`.  False in the model for an instantiation node whose
+    constructor is not a type constructor (not constructible in Python). -/
+def beq_refl : Prop := ∀ t : Ty, beq t t = true
+
+/-- `==` is reflexive on well-formed types -/
+theorem beq_refl_partial (t : Ty) (h : wf t = true) : beq t t = true := beq_refl_of_wf t h
+
+theorem beq_refl_counterexample : ¬ beq_refl := by
+  intro h
+  have := h (param "P" nothing [] [])
+  revert this
+  decide
+
+/-- `==` is symmetric -/
+theorem beq_symmetric (a b : Ty) (h : beq a b = true) : beq b a = true := beq_symm a b h
+
+/-- `==` is transitive (needed for bounded type parameters as dictionary keys) -/
+theorem beq_transitive (a b c : Ty) (h1 : beq a b = true) (h2 : beq b c = true) :
+    beq a c = true := beq_trans a b c h1 h2
+
+/-- full statement: substituting with an empty map returns an `==` type.  **False**
+    (`subst_empty_counterexample`): `substitute_type` recomputes the supertypes of every
+    instantiation node from its constructor's declaration, so a node whose stored supertypes are
+    not what instantiation computes comes back different. -/
+def subst_empty : Prop := ∀ t : Ty, beq (substituteType t []) t = true
+
+/-- on a consistent type the result is the same type up to the supertypes lists recorded in
+    copied constructors (which `==` never reads) -/
+theorem subst_empty_strip (t : Ty) (hc : Consistent t) :
+    strip (substituteType t []) = strip t :=
+  strip_getSubst_nil t false hc
+
+/-- proved part: on a well-formed, consistent type the result is `==` to the type, in both
+    directions -/
+theorem subst_empty_partial (t : Ty) (hw : wf t = true) (hc : Consistent t) :
+    beq (substituteType t []) t = true ∧ beq t (substituteType t []) = true := by
+  have h := beq_of_strip_eq t (substituteType t []) hw (subst_empty_strip t hc).symm
+  exact ⟨beq_symm _ _ h, h⟩
+
+/-- witness: `t = ParameterizedType(Foo, [String])` built directly (not through `new`) for
+    `class Foo<X> : Base<Lst<X>>`: its stored supertypes are the declared `[Base<Lst<X>>]`;
+    `substitute_type(t, {})` has supertypes `[Base<Lst<String>>]`, and `__eq__` compares them -/
+theorem subst_empty_counterexample : ¬ subst_empty := by
+  intro h
+  have := h (mkP fooC [strT])
+  revert this
+  decide
+
+/-- every result of `new` is consistent when its arguments are … -/
+theorem new_consistent (con : Ty) (args : List Ty) (ha : ConsistentL args) :
+    Consistent (tconNew con args) := tconNew_consistent con args ha
+
+/-- … so non-trivial well-formed consistent types exist: `Foo<Lst<String>>` -/
+example : wf (tconNew fooC [tconNew lstC [strT]]) = true ∧
+    Consistent (tconNew fooC [tconNew lstC [strT]]) ∧
+    (tconNew fooC [tconNew lstC [strT]]).sups ≠ [] :=
+  ⟨by decide,
+   tconNew_consistent _ _ ⟨tconNew_consistent _ _ ⟨trivial, trivial⟩, trivial⟩,
+   by decide⟩
+
+/-- the directly built `Foo<String>` of the counterexample is well-formed, so it is
+    consistency that fails there -/
+example : wf (mkP fooC [strT]) = true ∧ ¬ Consistent (mkP fooC [strT]) := by
+  refine ⟨by decide, ?_⟩
+  intro hc
+  have := (subst_empty_partial _ (by decide) hc).1
+  revert this
+  decide
+
+/-! ### 5. ground substitution, nested everywhere -/
+
+/-- substituting types without type variables for all type variables leaves no type variable
+    anywhere: not in nested arguments, wildcard bounds, bounds of other parameters, nor in the
+    supertypes (at any depth) of the instantiations that occur -/
+theorem subst_ground_tvfree (ps : List Ty) (t : Ty) (σ : TMap)
+    (ht : tvarsWithin ps t = true) (hc : σ.covers ps)
+    (hσ : ∀ p ∈ σ, mentionsTV p.2 = false) : mentionsTV (substS σ t) = false :=
+  mentionsTV_substS t σ ps hσ hc ht
+
+/-- for the map the code builds from parameters and arguments: instantiating the parameters `ps`
+    with arguments free of type variables in a type whose variables are within `ps` -/
+theorem subst_ground_tvfree_mk (ps vs : List Ty) (t : Ty) (hlen : ps.length ≤ vs.length)
+    (hv : mentionsTVL vs = false) (ht : tvarsWithin ps t = true) :
+    mentionsTV (substS (TMap.mk ps vs) t) = false :=
+  mentionsTV_substS t _ ps (TMap.mk_pres (mentionsTV · = false) _ _ (mentionsTVL_false_mem hv))
+    (TMap.mk_covers ps vs hlen) ht
+
+/-- the same with Python's own notion `has_type_variables()` for the replacements and the
+    result -/
+theorem subst_ground_hasTV (ps : List Ty) (t : Ty) (σ : TMap) (dflt : Bool)
+    (ht : tvarsWithin ps t = true) (hc : σ.covers ps)
+    (hσ : ∀ p ∈ σ, hasTV p.2 = false) :
+    hasTV (substS σ t) = false ∧ hasTV (getSubst t σ dflt) = false := by
+  rw [getSubst_eq t σ ps dflt hσ hc ht]
+  exact ⟨hasTV_substS σ hσ ps hc t ht, hasTV_substS σ hσ ps hc t ht⟩
+
+/-- `σ.covers ps` follows from `σ` binding the members of `ps` themselves -/
+theorem covers_of_get (σ : TMap) (ps : List Ty) (h : ∀ p ∈ ps, (σ.get p).isSome = true) :
+    σ.covers ps := TMap.covers_of_get h
+
+/-- the same about the code (`substitute_type` and `_get_type_substitution` with the default
+    `cond`) -/
+theorem subst_ground_tvfree_code (ps : List Ty) (t : Ty) (σ : TMap) (dflt : Bool)
+    (ht : tvarsWithin ps t = true) (hc : σ.covers ps)
+    (hσ : ∀ p ∈ σ, mentionsTV p.2 = false) :
+    mentionsTV (getSubst t σ dflt) = false ∧ hasTV (getSubst t σ dflt) = false := by
+  have hσ' : ∀ p ∈ σ, hasTV p.2 = false := fun p hp => hasTV_of_mentionsTV _ (hσ p hp)
+  rw [getSubst_eq t σ ps dflt hσ' hc ht]
+  have := mentionsTV_substS t σ ps hσ hc ht
+  exact ⟨this, hasTV_of_mentionsTV _ this⟩
+
+/-- nested everywhere / transitively: all supertypes of an instance of a closed class at
+    arguments without type variables are free of type variables at every depth (`mentionsTV`
+    looks into arguments, bounds and the stored supertypes of every nested instantiation) -/
+theorem subst_nested (con : Ty) (args : List Ty) (h : mentionsTVL args = false)
+    (hcl : closedCon con = true) (hlen : (conParams con).length ≤ args.length) :
+    mentionsTVL (tconNew con args).sups = false := by
+  rw [tconNew_sups_eq con args (hasTVL_of_mentionsTVL args h) hcl hlen]
+  exact mentionsTVL_instSupsS _ _ (conParams con)
+    (TMap.mk_pres (mentionsTV · = false) _ _ (mentionsTVL_false_mem h))
+    (TMap.mk_covers _ _ hlen) (closedCon_supsWithin con hcl)
+
+/-- the shape of the code's substitution: it descends into arguments, wildcard bounds and the
+    bound of a type variable that stays -/
+theorem subst_nested_shape (σ : TMap) (dflt : Bool) (nm : String) (v : Nat) (b con : Ty)
+    (args ss : List Ty) :
+    getSubst (wild v (some b)) σ dflt = wild v (some (getSubst b σ dflt)) ∧
+    (σ.get (tparam nm v (some b)) = none →
+      getSubst (tparam nm v (some b)) σ dflt = tparam nm v (some (getSubst b σ dflt))) ∧
+    argsOf (getSubst (param nm con args ss) σ dflt) = getSubstL args σ dflt := by
+  refine ⟨by simp only [getSubst], ?_, by simp only [getSubst, mkP, argsOf]⟩
+  intro h
+  simp only [getSubst, h]
+
+example : tvarsWithin [tX, tZ] (tconNew boxC [tX, tZ]) = true ∧
+    mentionsTV (tconNew boxC [tX, tZ]) = true ∧
+    mentionsTV (substS (TMap.mk [tX, tZ] [strT, tconNew lstC [strT]]) (tconNew boxC [tX, tZ]))
+      = false := by decide
+
+example : mentionsTVL (tconNew boxC [strT, tconNew lstC [intT]]).sups = false := by decide
 
 end Heph.Props.C07
